@@ -12,6 +12,18 @@ def cls_eq(a, b):
     return a == b
 
 
+_W = {"u8": 8, "u16": 16, "u32": 32, "u64": 64, "usize": 64}
+
+
+def reads_all(dec_cls, enc_cls):
+    """does a decoder of class dec_cls read back every value an encoder of class enc_cls can write?
+    Variable-length integers share one wire format, but a narrower decoder truncates (or leaves
+    bytes behind) for values beyond its width: the decoder must be at least as wide."""
+    if dec_cls[0] == "varint" and enc_cls[0] == "varint":
+        return _W.get(dec_cls[1], 0) >= _W.get(enc_cls[1], 64)
+    return dec_cls == enc_cls
+
+
 def three_way(ctx, prop, rule, ty, ref, fns=None, const_fields=()):
     """ref: [(field or None, class)] in wire order"""
     fns = fns or codec_fns(ctx)
@@ -29,7 +41,7 @@ def three_way(ctx, prop, rule, ty, ref, fns=None, const_fields=()):
     ctx.check(prop, rule, "%s: encode writes the fields in protocol order" % ty, okref, "encode sequence = %s" % [(f, c[0]) for f, c in got],
               "%s::encode writes %s, reference layout is %s" % (ty, got, ref), [loc(d["encode"], e.site) for e in enc], key="%s|%s|%s|encode order" % (prop, rule, ty))
     # decode vs encode
-    okdec = len(dec) == len(enc) and all(cls_eq(a.cls, b.cls) for a, b in zip(dec, enc))
+    okdec = len(dec) == len(enc) and all(reads_all(a.cls, b.cls) for a, b in zip(dec, enc))
     ctx.check(prop, rule, "%s: decode reads what encode writes" % ty, okdec, "decode sequence has the same %d byte shapes in the same order" % len(enc),
               "%s::decode reads %s but encode writes %s" % (ty, [e.cls for e in dec], [e.cls for e in enc]), [loc(d["decode"], e.site) for e in dec], key="%s|%s|%s|decode shapes" % (prop, rule, ty))
     # size vs encode
